@@ -19,8 +19,6 @@ use std::process::Command;
 mod cli_common;
 use cli_common::*;
 
-const CLASS_FILES_PIPE: &str = "files-mode-broken-pipe-after-error";
-const CLASS_PRE_PIPE: &str = "preprocessor-wraps-broken-pipe";
 /// Bytes that may sit in user-space buffers when the consumer goes away (stdout BufWriter 8 KiB,
 /// termcolor buffer, LineWriter): output beyond k + pipe capacity + this margin must hit EPIPE.
 const MARGIN: usize = 3 * 8192;
@@ -684,7 +682,6 @@ fn run_pipe(case: &str, ctx: &mut Ctx, drv: &mut Driver, rep: &mut Report) {
         return;
     };
     let g_hit = guard.contains("pipeHit 1");
-    let g_guard = guard.contains("pipeGuard 1");
     let g_intact = guard.contains("kindIntact 1");
     rep.branch(&format!("pipe:{}:{}", mode, if par { "multi" } else { "single" }));
     rep.branch(if must_notice { "pipe:must-notice" } else { "pipe:may-notice" });
@@ -695,14 +692,14 @@ fn run_pipe(case: &str, ctx: &mut Ctx, drv: &mut Driver, rep: &mut Report) {
             case: case.to_string(), detail: format!("guard reply: {}", guard),
         });
     }
-    // theorem C15_pipe under its guards
-    if g_hit && g_guard && g_intact && (m_exit != 0 || m_diags.contains("fatal")) {
+    // theorems C15_pipe / C15_pipe_pre
+    if g_hit && (!g_intact || m_exit != 0 || m_diags.contains("fatal")) {
         rep.violation(Violation {
             kind: "model_vs_spec".into(), class: "".into(), tie: "theorem C15_pipe".into(),
             case: case.to_string(), detail: format!("model: {} guard: {}", model, guard),
         });
     }
-    let class = if !g_intact { CLASS_PRE_PIPE } else if !g_guard { CLASS_FILES_PIPE } else { "" };
+    let class = "";
     let se = out.stderr_str();
     let pipe_diag = se.contains("Broken pipe") || se.contains("os error 32");
     let stray: Vec<&str> = se.lines().filter(|l| !(err && l.contains("missing-path"))).collect();
